@@ -9,6 +9,8 @@ CONSTANTS Shard, NShards,
           First,            \* "full": every write is drawn from the full alphabet;
                             \* "small": the writes before the last come from one representative per access path
           WrOps,            \* the write paths enabled in this run
+          WrSc,             \* subset of BOOLEAN: slice writes with a scalar (TRUE) / a sequence (FALSE)
+          SlNames,          \* the variables that receive label-slice writes from the full alphabet
           RdSteps,          \* steps of the read slices
           FullReads         \* TRUE: the final read set is every label x every (start, stop, step);
                             \* FALSE: every label, the open slice, first:last, and the slice just written
@@ -33,8 +35,8 @@ Full    == First = "full" \/ IsLast
 DoSetLabel == CanWrite /\ "setlabel" \in WrOps /\ \E n \in Names : \E l \in Labels :
                 /\ Full \/ (l = SP[1])
                 /\ SetLabel(n, l, Base(K))
-DoSetSlice == CanWrite /\ "setslice" \in WrOps /\ \E n \in Names : \E a \in Ends(cfg) : \E b \in Ends(cfg) : \E s \in WrSteps : \E sc \in BOOLEAN :
-                /\ \/ Full /\ (MaxW = 1 \/ n = 1)
+DoSetSlice == CanWrite /\ "setslice" \in WrOps /\ \E n \in Names : \E a \in Ends(cfg) : \E b \in Ends(cfg) : \E s \in WrSteps \cup {1, 2} : \E sc \in BOOLEAN :
+                /\ \/ Full /\ n \in SlNames /\ s \in WrSteps /\ sc \in WrSc
                    \/ n = 1 /\ a = None /\ b = None /\ s = 2 /\ sc
                    \/ n = 1 /\ a = SP[1] /\ b = SP[L] /\ s = 1 /\ ~sc
                 /\ SetSlice(n, a, b, s, sc, Base(K))
@@ -53,6 +55,7 @@ DoReadAll  == ReadAll(RdLabels, RdSlices)
 MCNext == DoSetLabel \/ DoSetSlice \/ DoSetPos \/ DoSetAttr \/ DoSetItem \/ DoReadAll
 MCSpec == Init /\ [][MCNext]_vars
 
-EmitRec == [span |-> cfg.span, kind |-> cfg.kind, coarse |-> CoarseOK(cfg), log |-> log, reads |-> reads]
+EmitRec == [span |-> cfg.span, kind |-> cfg.kind, coarse |-> CoarseOK(cfg),
+            init |-> [n \in Names |-> [i \in 1..L |-> InitVal(n, i)]], log |-> log, reads |-> reads]
 EmitInv == Done => PrintT(ToJson(EmitRec))
 =============================================================================
